@@ -24,7 +24,10 @@ Forms   == {"bare", "call", "name", "scope0", "scope1", "scope2", "scope3", "sco
             "scope_autouse"}
 \* an unrelated decorator before / after the fixture decorator; a usefixtures mark or an indirect parametrize
 \* mark above / below it (fixtures may carry marks: their names are usages like on tests)
-Extras  == {"none", "before", "after", "usefix_before", "usefix_after", "indirect_before", "indirect_after", "marks_around"}
+\* kwdeco_*: an unrelated CALLED decorator that carries keyword arguments spelled like the fixture decorator's own
+\* (name=, scope=, autouse=): only the fixture decorator's arguments count
+Extras  == {"none", "before", "after", "usefix_before", "usefix_after", "indirect_before", "indirect_after", "marks_around",
+            "kwdeco_before", "kwdeco_after"}
 Places  == {"module", "class", "nested_class", "if"}
 PKinds  == {"plain", "posonly", "kwonly", "default", "annot", "self", "request", "star", "kw"}
 Bodies  == {"return", "yield_top", "yield_if", "yield_else", "yield_for", "yield_while", "yield_with", "yield_async_with",
